@@ -220,7 +220,9 @@ func (V4) NewCfg(conn net.PacketConn, T time.Duration, tries int, cfg int) (Clie
 	case 1, 2:
 		opts = append(opts, nclient4.WithSummaryLogger())
 	case 3:
-		opts = append(opts, nclient4.WithDebugLogger())
+		// ... and a server address of its own: where the client's own exchanges go by default; a destination handed to
+		// SendAndRead is the destination
+		opts = append(opts, nclient4.WithDebugLogger(), nclient4.WithServerAddr(&net.UDPAddr{IP: net.IP{192, 0, 2, 1}, Port: 6767}))
 	}
 	restore := quietStderr()
 	var c *nclient4.Client
@@ -368,7 +370,7 @@ func (V6) NewCfg(conn net.PacketConn, T time.Duration, tries int, cfg int) (Clie
 	case 2:
 		opts = append(opts, nclient6.WithLogDroppedPackets(), nclient6.WithSummaryLogger())
 	case 3:
-		opts = append(opts, nclient6.WithLogDroppedPackets(), nclient6.WithDebugLogger())
+		opts = append(opts, nclient6.WithLogDroppedPackets(), nclient6.WithDebugLogger(), nclient6.WithBroadcastAddr(&net.UDPAddr{IP: net.ParseIP("2001:db8::547"), Port: 5470}))
 	}
 	restore := quietStderr()
 	c, err := nclient6.NewWithConn(conn, HW, opts...)
